@@ -548,6 +548,45 @@ func tlockOps() []seq.Op[*tlockPair] {
 			return "", ""
 		}})
 	}
+	// read lists with repeated keys (adjacent and not): a list element is one hold, sharded or not, and
+	// the holds may be given back in lists grouped differently from the ones that took them
+	for _, ks := range [][]int{{1, 1}, {2, 74, 74}, {1, 74, 1}} {
+		ks := ks
+		mult := map[int]int{}
+		for _, k := range ks {
+			mult[k]++
+		}
+		o = append(o, seq.Op[*tlockPair]{Name: fmt.Sprintf("RLocks(%v)", ks), Enabled: func(s *tlockPair) bool {
+			for k, m := range mult {
+				if s.w[k] || s.r[k]+m > 3 {
+					return false
+				}
+			}
+			return true
+		}, Step: func(s *tlockPair) (string, string) {
+			s.wide.RLocks(ks)
+			s.single.RLocks(ks)
+			for _, k := range ks {
+				s.r[k]++
+			}
+			return "", ""
+		}})
+		o = append(o, seq.Op[*tlockPair]{Name: fmt.Sprintf("RUnlocks(%v)", ks), Enabled: func(s *tlockPair) bool {
+			for k, m := range mult {
+				if s.r[k] < m {
+					return false
+				}
+			}
+			return true
+		}, Step: func(s *tlockPair) (string, string) {
+			s.wide.RUnlocks(ks)
+			s.single.RUnlocks(ks)
+			for _, k := range ks {
+				s.r[k]--
+			}
+			return "", ""
+		}})
+	}
 	return o
 }
 
@@ -750,7 +789,7 @@ func firstWords(s string) string {
 
 func main() {
 	r := ev.Start("C17")
-	r.Rule("routing: shard counts 1..128, 211, 509, 1024, 4093 x every supported key type at its boundary values (all int8/uint8, boundary sets of the wider types incl. negatives and MaxUint64, strings/[]byte/Bs of length 0..3 over 3 bytes, HitGroup) through SimpleIndex and XHashIndex: in range, stable across calls and instances; SearchIndex on boundary probes k*(Max/n)+{-1,0,1,2,mid}: monotone, no shard skipped, ends at 0 and n-1. containers: breadth-first over operation sequences on (sharded, unsharded) pairs of Map, LRU, tiny LRU, KeyLocker, TKeyLocker (incl. multi-key calls), SemMap for 1,2,3,73 shards with modulo and xxhash routing, merged on the reference state, answers and hook-observed entry counts compared after every step; sharded LRUs with a binding capacity (1-2 shards, capacity 1/3) against per-shard unsharded LRUs routed by the public index, every answer and eviction, all sequences to depth 4/5; every sharded LRU constructor x 1..211 shards x capacities 1,2,shards-1..shards+1,2*shards+1: every key of a family is routed to an existing shard, readable right after Set and gone after Delete")
+	r.Rule("routing: shard counts 1..128, 211, 509, 1024, 4093 x every supported key type at its boundary values (all int8/uint8, boundary sets of the wider types incl. negatives and MaxUint64, strings/[]byte/Bs of length 0..3 over 3 bytes, HitGroup) through SimpleIndex and XHashIndex: in range, stable across calls and instances; SearchIndex on boundary probes k*(Max/n)+{-1,0,1,2,mid}: monotone, no shard skipped, ends at 0 and n-1. containers: breadth-first over operation sequences on (sharded, unsharded) pairs of Map, LRU, tiny LRU, KeyLocker, TKeyLocker (incl. multi-key calls, and for the generic locker read lists with repeated keys released in other groupings), SemMap for 1,2,3,73 shards with modulo and xxhash routing, merged on the reference state, answers and hook-observed entry counts compared after every step; sharded LRUs with a binding capacity (1-2 shards, capacity 1/3) against per-shard unsharded LRUs routed by the public index, every answer and eviction, all sequences to depth 4/5; every sharded LRU constructor x 1..211 shards x capacities 1,2,shards-1..shards+1,2*shards+1: every key of a family is routed to an existing shard, readable right after Set and gone after Delete")
 	r.Assume("in the differential specs the LRU capacity is large enough that the per-shard bound never binds; the binding-capacity specs compare with n unsharded LRUs of the per-shard capacity routed by the public index", "locker and semaphore sequences contain only calls that cannot block (acquire with an already-cancelled context is a try-acquire)")
 	var jobs []func()
 	jobs = append(jobs, func() { seq.RunFamily(r, seq.Family{Name: "routing", Run: routing}) })
